@@ -301,6 +301,10 @@ def multitensor_probe(fggs, M, I, rng, viols, obs):
         keys = set(a.keys())
         ops = []
         try:
+            # a clone is a copy: same blocks, equal contents (an empty or partial "clone" would pass every aliasing probe below)
+            c = a.clone()
+            if set(c.keys()) != keys or any(not bool(((A.densify_pt(c[k]) == snap[k][0]) | (A.densify_pt(c[k]) != A.densify_pt(c[k])) & (snap[k][0] != snap[k][0])).all()) for k in keys):
+                viols.append(C.viol('multitensor-clone-differs', f'MultiTensor.clone() has blocks {sorted(c.keys())} / contents different from its source (blocks {sorted(keys)}) ({S})'))
             # each in-place operation is applied to its own fresh clone, first thing after cloning
             c = a.clone(); c.copy_(b); ops.append('copy_')
             c = a.clone()
